@@ -284,7 +284,7 @@ func c03Routes(maxRows int) Harness {
 		m := genStaticFeedN(c, false, baseCounts, nil, nil)
 		at := m.t("agency.txt")
 		pa := protoRow(at)
-		cfg := [][]string{{"A"}, {"A", "B"}, {"A", "A"}, {"A", "B", "A"}, {""}, {"", "B"}}[c.Free("agencies", 6)]
+		cfg := [][]string{{"A"}, {"A", "B"}, {"A", "A"}, {"A", "B", "A"}, {""}, {"", "B"}, {"a", "A"}, {"A", "b"}}[c.Free("agencies", 8)]
 		at.Rows = nil
 		for i, id := range cfg {
 			at.Rows = append(at.Rows, append([]string{}, pa...))
@@ -297,7 +297,7 @@ func c03Routes(maxRows int) Harness {
 		n := c.Free("routes.rows", maxRows+1)
 		var desc []string
 		for r := 0; r < n; r++ {
-			a := []string{"", "A", "B", "AX", "A "}[c.Free(fmt.Sprintf("routes[%d].agency_id", r), 5)]
+			a := []string{"", "A", "B", "AX", "A ", "a"}[c.Free(fmt.Sprintf("routes[%d].agency_id", r), 6)]
 			rt.Rows = append(rt.Rows, append([]string{}, pr...))
 			rt.set(r, "route_id", fmt.Sprintf("R%d", r+1))
 			rt.set(r, "agency_id", a)
@@ -505,6 +505,41 @@ func c03ConcatRun(c *Ctx, maxRows int) {
 	c03Run(c, m, n >= 2, "trips (route,service) "+strings.Join(desc, " "))
 }
 
+// c03TypedStops: three stops with fixed ids, each with a parent out of {none, the previous row, the
+// next row, dangling} and a location type out of {blank, station, entrance, boarding area}: typed
+// rows with a missing or dangling parent next to rows that others point at.
+func c03TypedStops(c *Ctx) {
+	m := genStaticFeedN(c, false, baseCounts, nil, nil)
+	t := m.t("stops.txt")
+	p := protoRow(t)
+	t.Rows = nil
+	ids := []string{"S1", "S2", "S3"}
+	var desc []string
+	for r := 0; r < 3; r++ {
+		parent := []string{"", ids[(r+2)%3], ids[(r+1)%3], "SX"}[c.Free(fmt.Sprintf("stops[%d].parent", r), 4)]
+		typ := []string{"", "1", "2", "4"}[c.Free(fmt.Sprintf("stops[%d].location_type", r), 4)]
+		t.Rows = append(t.Rows, append([]string{}, p...))
+		t.set(r, "stop_id", ids[r])
+		t.set(r, "parent_station", parent)
+		t.set(r, "location_type", typ)
+		t.set(r, "wheelchair_boarding", "")
+		desc = append(desc, fmt.Sprintf("%s{parent=%q type=%q}", ids[r], parent, typ))
+	}
+	for _, f := range []string{"stop_times.txt", "transfers.txt"} {
+		tt := m.t(f)
+		for r := range tt.Rows {
+			for _, col := range []string{"stop_id", "from_stop_id", "to_stop_id"} {
+				if tt.col(col) >= 0 {
+					tt.set(r, col, ids[(r+tt.col(col))%3])
+				}
+			}
+		}
+	}
+	c.Witness("typed_stops")
+	c03WithOption = true
+	c03Run(c, m, true, "stops "+strings.Join(desc, " "))
+}
+
 func c03Growth(c *Ctx) {
 	sizes := []int{64, 65, 129, 257, 513, 1025}
 	k := 1 + c.Free("rows_per_table", 40+len(sizes))
@@ -544,7 +579,7 @@ func init() {
 	register(&Check{
 		ID:    "C03",
 		Level: "model_checking",
-		Rule: "full products per table: stops 0..3 rows (thorough 0..4) x stop_id {'',S1,S2,S3} x parent {'',S1,S2,S3,SX}; routes 0..3 x agency_id {'',A,B,AX} x 6 agency configurations (single, two, duplicate ids, blank ids); trips 0..2 (thorough 3) x route/service/shape alphabets x duplicate route ids; stop_times 0..2 (thorough 3) x trip {T1,'',T2,TX} x stop {S1,'',SX,S2} x duplicate trip ids; transfers 0..3 (quick 2) x from/to alphabets x duplicate stop ids; map iteration starts 0, 1, 2 applied uniformly to every library range; plus <= 2 deviations over all id / reference cells of an 18-table-row feed parent rings / rings with a tail / chains of up to 40 stops, trips over (route, service) pairs whose concatenations collide, and a growth sweep 1..40, 64, 65, 129, 257, 513, 1025 rows per table with three-level stop hierarchies throughout (parents first / children first), with and without InheritWheelchairBoarding (as the rings and chains); " +
+		Rule: "full products per table: stops 0..3 rows (thorough 0..4) x stop_id {'',S1,S2,S3} x parent {'',S1,S2,S3,SX}; routes 0..3 x agency_id {'',A,B,AX} x 8 agency configurations (single, two, duplicate ids, blank ids, ids differing in case only); three stops x parent {none, previous, next, dangling} x location type {blank, 1, 2, 4} with and without the inheritance option; trips 0..2 (thorough 3) x route/service/shape alphabets x duplicate route ids; stop_times 0..2 (thorough 3) x trip {T1,'',T2,TX} x stop {S1,'',SX,S2} x duplicate trip ids; transfers 0..3 (quick 2) x from/to alphabets x duplicate stop ids; map iteration starts 0, 1, 2 applied uniformly to every library range; plus <= 2 deviations over all id / reference cells of an 18-table-row feed parent rings / rings with a tail / chains of up to 40 stops, trips over (route, service) pairs whose concatenations collide, and a growth sweep 1..40, 64, 65, 129, 257, 513, 1025 rows per table with three-level stop hierarchies throughout (parents first / children first), with and without InheritWheelchairBoarding (as the rings and chains); " +
 			"non-trivial = distinct archives with at least two rows in the table under study (or any deviation); oracle = pointer-identity / named-id / forest invariants",
 		Assumptions: []string{"each result entity is traced to its row through a free-text column carrying the row number", "a route that names no agency may be linked only when there is exactly one agency"},
 		Scenarios: func(tier string) []*Scenario {
@@ -559,6 +594,7 @@ func init() {
 				{Name: "stop_times-product", Bound: -1, Run: c03StopTimes(stt)},
 				{Name: "transfers-product", Bound: -1, Run: c03Transfers(tf)},
 				{Name: "cross-table", Bound: 2, Run: c03Cross},
+				{Name: "typed-stops", Bound: -1, Run: c03TypedStops},
 				{Name: "rings-and-chains", Bound: -1, Run: c03Rings},
 				{Name: "colliding-concatenations", Bound: -1, Run: c03Concat(tr)},
 				{Name: "growth-sweep", Bound: -1, Run: c03Growth},
